@@ -611,7 +611,7 @@ references `n` non-weakly, and `n` is bound to no definition taking part in the 
 reference is never reported (it resolves to zero). -/
 theorem undefined_error_iff (am : Bool) (fs : List File) (i n : Nat) :
     (i, n) ∈ undefinedErrors am fs ↔
-      ∃ f, fs[i]? = some f ∧ isLoaded fs i = true ∧ n ∈ f.strongUndefs ∧ isBound am fs n = false := by
+      ∃ f, fs[i]? = some f ∧ isLoaded fs i = true ∧ n ∈ f.strongUndefs ∧ isBoundFrom am fs f.dynamic n = false := by
   unfold undefinedErrors
   simp only [List.mem_flatMap, List.mem_range]
   constructor
@@ -634,6 +634,20 @@ theorem undefined_error_iff (am : Bool) (fs : List File) (i n : Nat) :
     refine ⟨i, hi, ?_⟩
     simp only [hf, hl, if_true, List.mem_map, List.mem_filter]
     exact ⟨n, ⟨hn, by simp [hb]⟩, rfl⟩
+
+/-- The same for a REGULAR object (the executable's own references, which is what the property speaks about): reported
+exactly when the name is bound to no definition taking part in the link. -/
+theorem undefined_error_iff_regular (am : Bool) (fs : List File) (i n : Nat) (f : File)
+    (hf : fs[i]? = some f) (hreg : f.dynamic = false) :
+    (i, n) ∈ undefinedErrors am fs ↔ isLoaded fs i = true ∧ n ∈ f.strongUndefs ∧ isBound am fs n = false := by
+  rw [undefined_error_iff]
+  constructor
+  · rintro ⟨f', hf', hl, hn, hb⟩
+    rw [hf] at hf'; injection hf' with hf'; subst hf'
+    rw [hreg, isBoundFrom_false] at hb
+    exact ⟨hl, hn, hb⟩
+  · rintro ⟨hl, hn, hb⟩
+    exact ⟨f, hf, hl, hn, by rw [hreg, isBoundFrom_false]; exact hb⟩
 
 theorem weak_reference_never_error (am : Bool) (fs : List File) (i n : Nat) (f : File)
     (hf : fs[i]? = some f) (hw : n ∉ f.strongUndefs) : (i, n) ∉ undefinedErrors am fs := by
